@@ -83,7 +83,7 @@ package model
 //@ pred tsKey(era uint32, lamport uint64, delim uint32, cuid string) = strcat(dec(era), ":", dec(lamport), ":", dec(delim), ":", cuid)
 //@ func (*Timestamp).Hash
 //@   mode math
-//@   props C15
+//@   props C15 C04 C01
 //@   uses hkeyDef
 //@   ensures-local[format] result == tsKey(its.Era, its.Lamport, its.Delimiter, its.CUID)
 //@   ensures[key]    result == hkey(its.Era, its.Lamport, its.Delimiter, its.CUID)
